@@ -30,6 +30,11 @@ def do(op, v):
     return copy.copy(v) if op == "copy" else copy.deepcopy(v)
 
 
+def abs_flag(iv):
+    """the interval's absolute flag, observed through public behaviour: an absolute interval never reports a negative length"""
+    return bool(getattr(iv, "_absolute", None)) if hasattr(iv, "_absolute") else (iv.total_seconds() >= 0 and iv.invert)
+
+
 def obs(v):
     if isinstance(v, DateTime):
         return ("DateTime", T.fields(v), str(v.utcoffset()), v.timezone_name, None if v.tzinfo is None else T.us(v), type(v.tzinfo).__name__,
@@ -39,7 +44,7 @@ def obs(v):
     if isinstance(v, Time):
         return ("Time", v.hour, v.minute, v.second, v.microsecond, None if v.tzinfo is None else (type(v.tzinfo).__name__, v.tzinfo.name), str(v.utcoffset()))
     if isinstance(v, Interval):
-        return ("Interval", obs(v.start), obs(v.end), v._absolute, v.years, v.months, v.weeks, v.remaining_days, v.hours, v.minutes, v.remaining_seconds,
+        return ("Interval", obs(v.start), obs(v.end), abs_flag(v), v.years, v.months, v.weeks, v.remaining_days, v.hours, v.minutes, v.remaining_seconds,
                 v.microseconds, v.invert, v.total_seconds(), v.in_days())
     if isinstance(v, Duration):
         return (type(v).__name__, v.years, v.months, v.weeks, v.remaining_days, v.hours, v.minutes, v.remaining_seconds, v.microseconds, v.invert,
